@@ -11,7 +11,7 @@ Verdict(tr) ==
       connected == \E i \in 1..n : IsEv(tr[i], {"connected"})
       handshakeStarted ==       \* either side had started the closing handshake (or the upgrade was refused)
         \E i \in 1..n : \/ (tr[i].k \in {"wr", "wrf"} /\ Has(tr[i], "op") /\ tr[i].op = OpClose)
-                        \/ (tr[i].k = "call" /\ tr[i].m = "close")
+                        \/ IsCloseCall(tr[i])
                         \/ IsEv(tr[i], {"closing", "closed", "rejected"})
       \* one attempt per resolved address: a connect call, or a socket that could not even be created
       connects == SelectSeq(tr, LAMBDA r : r.k = "sock" /\ r.op \in {"connect", "create_fail"})
